@@ -3,6 +3,7 @@
 // the repository under test; parsed with the same clang invocation.
 #include <algorithm>
 #include <atomic>
+#include <condition_variable>
 #include <functional>
 #include <memory>
 #include <mutex>
@@ -26,6 +27,7 @@ class Box {
 public:
     void entryA();
     void entryB();
+    void entryC();
     void set_callback(std::function<void(int)> cb) {
         std::scoped_lock lock(cb_mutex_);
         cb_ = std::move(cb);
@@ -40,6 +42,11 @@ private:
     int f_{0};
     int g_{0};
     int h_{0};
+    int k1_{0}, k2_{0}, k3_{0}, k4_{0}, k5_{0}, k6_{0}, k7_{0}, k8_{0}, k9_{0}, k10_{0}, k11_{0}, k12_{0}, k13_{0};
+    std::mutex m2_;
+    std::mutex m3_;
+    std::mutex m4_;
+    std::condition_variable cv_;
     std::atomic<int> counter_{0};
     std::unordered_map<std::string, State> map_;
     std::unordered_map<std::string, State> map2_;
@@ -131,6 +138,47 @@ void Box::entryB() {
     std::scoped_lock lock(items_mutex_);
     for (const auto& item : items_) {
         total += item->shared;                         // R Item::shared {items_mutex_}
+    }
+}
+
+// explicit lock-object operations: the held region is not the lexical scope of the object
+void Box::entryC() {
+    std::unique_lock lock(m_);
+    k1_ = 1;                                           // W k1_ {m_}
+    lock.unlock();
+    k2_ = 1;                                           // W k2_ {}      after unlock()
+    lock.lock();
+    k3_ = 1;                                           // W k3_ {m_}    after lock()
+    if (k1_ > 0) {                                     // R k1_ {m_}
+        lock.unlock();
+    }
+    k4_ = 1;                                           // W k4_ {}      unlocked on one path
+    std::unique_lock deferred(m2_, std::defer_lock);
+    k5_ = 1;                                           // W k5_ {}      deferred: not held yet
+    deferred.lock();
+    k6_ = 1;                                           // W k6_ {m2_}
+    std::unique_lock tried(m3_, std::try_to_lock);
+    k7_ = 1;                                           // W k7_ {m2_}   try_to_lock may fail: never counted
+    {
+        std::lock_guard inner(m3_);
+        k8_ = 1;                                       // W k8_ {m2_, m3_}
+    }
+    k9_ = 1;                                           // W k9_ {m2_}   inner block ended
+    deferred.release();
+    k10_ = 1;                                          // W k10_ {}     release(): treated as not held
+    std::unique_lock waiter(m4_);
+    cv_.wait(waiter, [this] { return k11_ > 0; });     // R k11_ {m4_}  predicate runs under the lock
+    k11_ = 0;                                          // W k11_ {m4_}  re-acquired after the wait
+    for (int i = 0; i < 2; ++i) {
+        k12_ = i;                                      // W k12_ {m4_} and W k12_ {} (2nd iteration starts unlocked)
+        waiter.unlock();
+    }
+    try {
+        std::unique_lock guarded(m_);
+        k13_ = 1;                                      // W k13_ {m_}
+        guarded.unlock();
+    } catch (...) {
+        k13_ = 2;                                      // W k13_ {}     handler: the guard object is gone
     }
 }
 
